@@ -378,3 +378,6 @@ func TestC16(t *testing.T) {
 		}
 	})
 }
+
+// FuzzC16 is the native coverage-guided supplement of the generated part (thorough tier only).
+func FuzzC16(f *testing.F) { fuzzProperty(f, TestC16) }
